@@ -198,6 +198,7 @@ def run(ctx, rep):
     rep.floor("explicit-quantization sites", n_sites, len(tab["explicit_sites"]))
 
     oneround(ctx, rep, tab)
+    freshbuf(ctx, rep, tab)
 
     # ---- WHOWRITES ---------------------------------------------------------------
     cls = tab["transform_class"]
@@ -333,3 +334,52 @@ def oneround(ctx, rep, tab):
                              "more (renamed?): re-anchor rules/c12.json" % sorted(allowed))
     rep.floor("float->integer conversion sites on the quantization paths", n_sites, 1)
     rep.control("ONEROUND", "c12_round_bad", fired, "a second rounding function on the quantization path must be reported")
+
+
+def freshbuf(ctx, rep, tab):
+    """FRESHBUF: `GetAttributeVector` / `Options::GetVector` write only as many entries as the option stores and
+    leave the rest of the caller's buffer alone.  The buffer handed to them must therefore be fresh for this
+    use: declared inside the innermost loop that contains the call (value-initialised per iteration) - or, outside
+    any loop, declared in the same function.  A scratch vector hoisted out of the per-attribute loop carries the
+    previous attribute's origin into the dimensions the current option does not specify."""
+    F = ctx.F
+    rep.rules_text.append(
+        "FRESHBUF: the output buffer of DracoOptions::GetAttributeVector / Options::GetVector (partial writers: they "
+        "leave unspecified dimensions untouched) is a local declared in the innermost loop iteration that contains the "
+        "call: no value of another attribute survives in it")
+    scope = set(ctx.reach("encode"))
+    n, fired = 0, False
+    for fn in F.fns.values():
+        is_ctl = fn.name.startswith("verif_control::c12_fresh")
+        if fn.key not in scope and not is_ctl:
+            continue
+        loops = fn.loops()
+        for c, cb, rk, ev in fn.calls():
+            sh = short(c)
+            if sh not in ("GetAttributeVector", "GetVector", "c12_partial_fill") or len(c.get("args") or []) < 1:
+                continue
+            buf = (c.get("args") or [])[-1]
+            root = None
+            for x in walk(buf):
+                if x.get("k") == "var" and "d" in x:
+                    root = x
+                    break
+            if root is None or "p" in root:
+                continue          # the buffer is the caller's (a parameter): judged at the caller
+            decl_blocks = [b.id for b, e2 in fn.events() if e2["k"] == "decl" and (e2.get("var") or {}).get("d") == root["d"]]
+            inner = sorted([l for l in loops if cb in l[1]], key=lambda l: len(l[1]))
+            if not decl_blocks:
+                ok, why = False, "the buffer is not a local of this function"
+            elif not inner:
+                ok, why = True, "no enclosing loop: the buffer is declared in this function"
+            else:
+                ok = all(db in inner[0][1] for db in decl_blocks)
+                why = "declared inside the loop iteration" if ok else \
+                    "`%s` is declared outside the loop that contains the call: entries the option does not specify keep " \
+                    "the previous iteration's values" % (root.get("n") or "buffer")
+            n += 0 if is_ctl else 1
+            fired |= is_ctl and not ok
+            rep.add(Obligation("FRESHBUF", fn.base, "output buffer of " + sh, fn.site(c.get("loc", "")),
+                               DISCHARGED if ok else VIOLATION, control=is_ctl, detail=why))
+    rep.floor("partial-writer call sites on the encode path", n, 2)
+    rep.control("FRESHBUF", "c12_fresh_bad", fired, "a scratch buffer hoisted out of the loop must be reported")
